@@ -1,4 +1,5 @@
 import MpsProps.C17
+import MpsProps.HandlerSrc
 import Mps.Malform
 import MpsGen.Guards
 import Mps.GuardTables
